@@ -1160,3 +1160,117 @@ func init() {
 		Title: "the DAG survives a restart as it was acknowledged (shared with R3.3): every change of a node's parents, children, branch or lock state and of the node map is followed by a save of the repo on every exit without error",
 		Fn:    ruleR3_3})
 }
+
+// ---------------------------------------------------------------------------------------------
+// R3.19 / R16.19 — start-up caches every schema kind;  R16.20 — removing the validation schema
+// document from the head's cache also drops the compiled schema.
+
+func init() {
+	reg := func(id, prop string) {
+		register(ruleDef{ID: id, Prop: prop, Tier: "quick", Floor: 3,
+			Title: "start-up caches every kind of neuronjson metadata: Initialize stores into the in-memory metadata map under each constant of type Schema, with no dependence on whether the leaf is an open head",
+			Fn:    ruleInitializeCachesEveryKind})
+	}
+	reg("R3.19", "C03")
+	reg("R16.19", "C16")
+	register(ruleDef{ID: "R16.20", Prop: "C16", Tier: "quick", Floor: 2,
+		Title: "the compiled validation schema follows its document: every neuronjson function that deletes an entry of the in-memory metadata map under a key that can be JSONSchema also stores into compiledSchema",
+		Fn:    ruleCompiledSchemaFollowsDocument})
+}
+
+func ruleInitializeCachesEveryKind(r *Run) {
+	w := r.W
+	f := w.method("datatype/neuronjson", "Data", "Initialize")
+	tp := w.tpkg("datatype/neuronjson")
+	if f == nil || tp == nil {
+		r.undecided("neuronjson.Data.Initialize", "anchor not found")
+		return
+	}
+	kinds := map[string]string{} // constant value → name
+	for _, name := range tp.Scope().Names() {
+		if c, ok := tp.Scope().Lookup(name).(*types.Const); ok && strings.HasSuffix(c.Type().String(), "neuronjson.Schema") {
+			kinds[c.Val().ExactString()] = name
+		}
+	}
+	cached := map[string]bool{}
+	for _, b := range f.Blocks {
+		for _, in := range b.Instrs {
+			mu, ok := in.(*ssa.MapUpdate)
+			if !ok {
+				continue
+			}
+			fa := mapFieldAddr(mu.Map)
+			if fa == nil {
+				continue
+			}
+			if name, _, _ := fieldName(fa); name != "metadata" {
+				continue
+			}
+			if kc, ok := mu.Key.(*ssa.Const); ok && kc.Value != nil {
+				cached[kc.Value.ExactString()] = true
+			}
+		}
+	}
+	var vals []string
+	for v := range kinds {
+		vals = append(vals, v)
+	}
+	sort.Strings(vals)
+	for _, v := range vals {
+		r.check(cached[v], "neuronjson.Initialize:caches:"+kinds[v], "cached at start-up",
+			"Initialize does not put the "+kinds[v]+" document into the in-memory metadata map: the head answers from that map, so after a restart a GET at the head (or at a version that becomes the head later) answers 404 for a document its ancestors have", w.fpos(f))
+	}
+	r.check(len(vals) >= 3, "neuronjson:schema-kinds", fmt.Sprintf("%d constants of type Schema", len(vals)), "fewer than the three kinds confirmed by reading: rule needs review", "-")
+}
+
+func ruleCompiledSchemaFollowsDocument(r *Run) {
+	w := r.W
+	n := 0
+	jsVal := ""
+	if c := w.pkgScopeConst("datatype/neuronjson", "JSONSchema"); c != nil {
+		jsVal = c.ExactString()
+	}
+	for _, f := range w.RepoFuncs {
+		if relPkg(pkgPathOf(f)) != "datatype/neuronjson" || len(f.Blocks) == 0 || strings.HasSuffix(w.fposFile(f), "_test.go") {
+			continue
+		}
+		k := 0
+		for _, c := range calls(f) {
+			cc, ok := c.(*ssa.Call)
+			if !ok {
+				continue
+			}
+			bi, ok := cc.Call.Value.(*ssa.Builtin)
+			if !ok || bi.Name() != "delete" || len(cc.Call.Args) != 2 {
+				continue
+			}
+			fa := mapFieldAddr(cc.Call.Args[0])
+			if fa == nil {
+				continue
+			}
+			if name, _, _ := fieldName(fa); name != "metadata" {
+				continue
+			}
+			if kc, ok := cc.Call.Args[1].(*ssa.Const); ok && kc.Value != nil && kc.Value.ExactString() != jsVal {
+				continue // a constant other kind
+			}
+			k++
+			n++
+			stores := false
+			for _, b := range f.Blocks {
+				for _, in := range b.Instrs {
+					if st, ok := in.(*ssa.Store); ok {
+						if fa2, ok := st.Addr.(*ssa.FieldAddr); ok {
+							if name, _, _ := fieldName(fa2); name == "compiledSchema" {
+								stores = true
+							}
+						}
+					}
+				}
+			}
+			r.check(stores, fmt.Sprintf("%s:metadata-delete#%d", fname(f), k), "the function also resets compiledSchema",
+				"the validation schema document can be removed from the head's cache while the compiled schema stays: POSTs at the head are still validated and converted by the deleted schema, and a restarted server stores other values for the same requests", w.pos(cc.Pos()))
+		}
+	}
+	r.check(n >= 1, "neuronjson:metadata-deletes", fmt.Sprintf("%d deletes from the metadata cache", n), "none found: rule needs review", "-")
+}
